@@ -18,12 +18,14 @@ var plans = map[string]PropPlan{
 		QuickSecs: 90, ThoroughSecs: 1500, Assumptions: seqAssume,
 	},
 	"C02": {
-		Quick: []Plan{{Scenario: "lb", Kind: "seq"}}, Thorough: []Plan{{Scenario: "lb", Kind: "seq"}},
-		QuickSecs: 90, ThoroughSecs: 1500, Assumptions: seqAssume,
+		Quick:    []Plan{{Scenario: "lb", Kind: "seq"}, {Scenario: "lb.share", PB: 2}, {Scenario: "lb.share.fine", PB: 1, Fine: true}},
+		Thorough: []Plan{{Scenario: "lb", Kind: "seq"}, {Scenario: "lb.share", PB: 4}, {Scenario: "lb.share.fine", PB: 2, Fine: true}},
+		QuickSecs: 90, ThoroughSecs: 1500, Assumptions: append([]string{"lb.share: the parent's reader and up to two Slice readers owned by other goroutines, all interleavings within the preemption bound; every return of a block to the pool and every examination of a result are scheduling points on one 'pool' object"}, seqAssume...),
 	},
 	"C03": {
-		Quick: []Plan{{Scenario: "lb", Kind: "seq"}}, Thorough: []Plan{{Scenario: "lb", Kind: "seq"}},
-		QuickSecs: 90, ThoroughSecs: 1500, Assumptions: seqAssume,
+		Quick:    []Plan{{Scenario: "lb", Kind: "seq"}, {Scenario: "lb.share", PB: 2}, {Scenario: "lb.share.fine", PB: 1, Fine: true}},
+		Thorough: []Plan{{Scenario: "lb", Kind: "seq"}, {Scenario: "lb.share", PB: 4}, {Scenario: "lb.share.fine", PB: 2, Fine: true}},
+		QuickSecs: 90, ThoroughSecs: 1500, Assumptions: append([]string{"lb.share: the parent's reader and up to two Slice readers owned by other goroutines, all interleavings within the preemption bound; every return of a block to the pool and every examination of a result are scheduling points on one 'pool' object"}, seqAssume...),
 	},
 	"C04": {
 		Quick:     []Plan{{Scenario: "conn.send", PB: 2, DB: 1}, {Scenario: "conn.recv", PB: 2, DB: 1}, {Scenario: "conn.send.fine", PB: 1, DB: 1, Fine: true}, {Scenario: "conn.recv.fine", PB: 1, DB: 0, Fine: true}},
@@ -68,8 +70,8 @@ var plans = map[string]PropPlan{
 		Assumptions: schedAssume,
 	},
 	"C11": {
-		Quick:     []Plan{{Scenario: "poll.live", PB: 2, DB: 0}, {Scenario: "poll.dispatch", PB: 0, DB: 3, NoIter: true}},
-		Thorough:  []Plan{{Scenario: "poll.live", PB: 3, DB: 0}, {Scenario: "poll.dispatch", PB: 1, DB: 4, NoIter: true}},
+		Quick:     []Plan{{Scenario: "poll.live", PB: 2, DB: 0}, {Scenario: "poll.dispatch", PB: 0, DB: 3, NoIter: true}, {Scenario: "poll.many", PB: 1}},
+		Thorough:  []Plan{{Scenario: "poll.live", PB: 3, DB: 0}, {Scenario: "poll.dispatch", PB: 1, DB: 4, NoIter: true}, {Scenario: "poll.many", PB: 2}},
 		QuickSecs: 90, ThoroughSecs: 900,
 		Assumptions: append([]string{"Linux epoll only (poll_default_bsd.go does not build here)", "poll.dispatch calls the real event handler with synthetic (flag set x real descriptor state) batches chosen as explored environment options; flag sets the kernel cannot produce for a state are judged by the safety clauses only", "operators are recording stubs with the connection's callback shapes"}, schedAssume...),
 	},
@@ -92,8 +94,8 @@ var plans = map[string]PropPlan{
 		Assumptions: append([]string{"loopback TCP (IPv4) and AF_UNIX abstract sockets; after a non-blocking connect the harness waits (bounded, real time) until the kernel has decided the loopback handshake so that replays are deterministic", "the dial timeout runs on the virtual clock: 'within its timeout plus scheduling slack' is read as 'the dial needs no event after its own timer fired'", "a typed-nil connection returned together with an error counts as no connection"}, schedAssume...),
 	},
 	"C15": {
-		Quick:     []Plan{{Scenario: "fd.audit", PB: 1, DB: 2, NoIter: true}, {Scenario: "slot.reuse", PB: 2, DB: 0}, {Scenario: "pollmgr", PB: 2, DB: 1}, {Scenario: "dial", PB: 1, DB: 1}},
-		Thorough:  []Plan{{Scenario: "fd.audit", PB: 2, DB: 3, NoIter: true}, {Scenario: "slot.reuse", PB: 3, DB: 0}, {Scenario: "pollmgr", PB: 3, DB: 1}, {Scenario: "dial", PB: 2, DB: 1}, {Scenario: "conn.teardown", PB: 2, DB: 0}, {Scenario: "server", PB: 2, DB: 1}},
+		Quick:     []Plan{{Scenario: "fd.audit", PB: 1, DB: 2, NoIter: true}, {Scenario: "slot.reuse", PB: 2, DB: 0}, {Scenario: "pollmgr", PB: 2, DB: 1}, {Scenario: "dial", PB: 1, DB: 1}, {Scenario: "listener", PB: 2}},
+		Thorough:  []Plan{{Scenario: "listener", PB: 4}, {Scenario: "fd.audit", PB: 2, DB: 3, NoIter: true}, {Scenario: "slot.reuse", PB: 3, DB: 0}, {Scenario: "pollmgr", PB: 3, DB: 1}, {Scenario: "dial", PB: 2, DB: 1}, {Scenario: "conn.teardown", PB: 2, DB: 0}, {Scenario: "server", PB: 2, DB: 1}},
 		QuickSecs: 110, ThoroughSecs: 1800,
 		Assumptions: append([]string{"every close(2) netpoll issues goes through the descriptor ledger of the syscall shim (creator, owner, open/closed, close count); descriptors created by package net / os.File are registered by the harness", "an adversary opens a descriptor right after every close netpoll issues (it gets the number just freed) and its descriptors must be intact at the end: this also catches closes issued inside os.File that the shim cannot see", "the ledger verdicts of the other scheduled scenarios run under this check are reported here (signature prefix C15)"}, schedAssume...),
 	},
@@ -110,11 +112,12 @@ var plans = map[string]PropPlan{
 	},
 	"C19": {
 		Quick: []Plan{{Scenario: "conn.teardown", PB: 1, Race: true}, {Scenario: "conn.lifecycle", PB: 1, Race: true}, {Scenario: "conn.request", PB: 1, Race: true}, {Scenario: "pollmgr", PB: 1, DB: 1, Race: true},
-			{Scenario: "slot.reuse", PB: 1, Race: true}, {Scenario: "mux.shardq", PB: 1, Race: true}, {Scenario: "server", PB: 1, DB: 1, Race: true}, {Scenario: "dial", PB: 1, Race: true}, {Scenario: "conn.flush", PB: 1, DB: 1, Race: true}},
+			{Scenario: "slot.reuse", PB: 1, Race: true}, {Scenario: "mux.shardq", PB: 1, Race: true}, {Scenario: "server", PB: 1, DB: 1, Race: true}, {Scenario: "dial", PB: 1, Race: true}, {Scenario: "conn.flush", PB: 1, DB: 1, Race: true},
+			{Scenario: "conn.recv", PB: 1, Race: true}, {Scenario: "conn.send", PB: 1, Race: true}, {Scenario: "listener", PB: 2, Race: true}},
 		Thorough: []Plan{{Scenario: "conn.teardown", PB: 2, Race: true}, {Scenario: "conn.lifecycle", PB: 2, Race: true}, {Scenario: "conn.request", PB: 2, Race: true}, {Scenario: "pollmgr", PB: 2, DB: 1, Race: true},
 			{Scenario: "slot.reuse", PB: 2, Race: true}, {Scenario: "mux.shardq", PB: 2, Race: true}, {Scenario: "server", PB: 2, DB: 1, Race: true}, {Scenario: "dial", PB: 2, DB: 1, Race: true},
-			{Scenario: "conn.flush", PB: 2, DB: 1, Race: true}, {Scenario: "conn.read", PB: 2, DB: 1, Race: true}, {Scenario: "conn.send", PB: 2, DB: 1, Race: true}, {Scenario: "conn.recv", PB: 2, DB: 1, Race: true}, {Scenario: "poll.live", PB: 2, Race: true}},
-		QuickSecs: 115, ThoroughSecs: 2400,
+			{Scenario: "conn.flush", PB: 2, DB: 1, Race: true}, {Scenario: "conn.read", PB: 2, DB: 1, Race: true}, {Scenario: "conn.send", PB: 2, DB: 1, Race: true}, {Scenario: "conn.recv", PB: 2, DB: 1, Race: true}, {Scenario: "poll.live", PB: 2, Race: true}, {Scenario: "listener", PB: 3, Race: true}},
+		QuickSecs: 170, ThoroughSecs: 2400,
 		Assumptions: []string{"the worker is built with -race, so the race-build substitutes (SafeLinkBuffer, fd->operator map) are the code under test", "the scheduler's hand-offs use plain memory in //go:norace functions and are invisible to ThreadSanitizer, which therefore reports, for each explored schedule, exactly the conflicting access pairs not ordered by the program's own synchronisation (vector clocks: no physical simultaneity needed)", "executions are ordered for the detector by a fence written only by the driver; the harness's own cross-thread hand-offs use real atomics; reports with an access in the harness or the engine are ignored", "timer channel sends are performed by whichever thread is scheduling, which can add a happens-before edge that the Go runtime's timer would not (possible false negatives for races ordered only through a timer tick)"},
 	},
 	"C17": {
